@@ -8,6 +8,7 @@ import (
 	"go/constant"
 	"go/token"
 	"go/types"
+	"regexp"
 	"sort"
 	"strings"
 
@@ -593,6 +594,10 @@ type enumerator struct {
 	nAct     int
 	// pathSensitiveEvents: labels may depend on the path (they use ResolveOnPath)
 	pathSensitiveEvents bool
+	// decided: branch taken earlier on this path for a condition that cannot change
+	// during the call (the exec flag, a boolean parameter, a captured copy of one);
+	// later tests of the same flag — also in expanded closures — follow it
+	decided map[string]bool
 	// startBlock/stopBlock (outermost activation only): walk one pass from
 	// startBlock; arriving at stopBlock again ends the path with term "back"
 	// (w.cur then holds the phi bindings of that arrival)
@@ -777,8 +782,10 @@ func (e *enumerator) walkFn(fn *ssa.Function, ev []string, depth int, k func(ev 
 							}
 						}()
 						// continue the caller after the call, outside the callee's environment
+						// (a copy: appending to the truncated slice would overwrite the
+						// callee's frame, which is needed again for its other paths)
 						savedEnv := e.w.inlineEnv
-						e.w.inlineEnv = e.w.inlineEnv[:depthEnv-1]
+						e.w.inlineEnv = append([]map[*ssa.Parameter]string(nil), e.w.inlineEnv[:depthEnv-1]...)
 						walk(b, next, ev2)
 						e.w.inlineEnv = savedEnv
 					})
@@ -830,6 +837,27 @@ func (e *enumerator) walkFn(fn *ssa.Function, ev []string, depth int, k func(ev 
 						}
 					}
 					return out
+				}
+				if !known {
+					if key, neg := e.w.stableFlag(t.Cond); key != "" {
+						if e.decided == nil {
+							e.decided = map[string]bool{}
+						}
+						if dv, ok := e.decided[key]; ok {
+							v, known = dv != neg, true
+						} else {
+							for _, choice := range []bool{true, false} {
+								e.decided[key] = choice != neg
+								if choice {
+									enter(b, b.Succs[0], mark(ev, true))
+								} else {
+									enter(b, b.Succs[1], mark(ev, false))
+								}
+							}
+							delete(e.decided, key)
+							return
+						}
+					}
 				}
 				if !known || v {
 					enter(b, b.Succs[0], mark(ev, true))
@@ -1550,4 +1578,28 @@ func (w *World) phiOnPath(v ssa.Value) ssa.Value {
 	w.shallowResolve = true
 	defer func() { w.shallowResolve = saved }()
 	return w.ResolveOnPath(v)
+}
+
+var reStableFlag = regexp.MustCompile(`^(p\d+|recv)(\.[A-Za-z_]\w*)*\.(Exec|exec)$|^p\d+$`)
+
+// stableFlag: cond is (the negation of) a boolean that cannot change during the
+// call: the exec flag of a context, a boolean parameter, or a local / captured
+// copy of one. Returns its canonical name (closure markers removed).
+func (w *World) stableFlag(cond ssa.Value) (string, bool) {
+	neg := false
+	for {
+		if u, ok := cond.(*ssa.UnOp); ok && u.Op == token.NOT {
+			cond, neg = u.X, !neg
+			continue
+		}
+		break
+	}
+	if !isBoolType(cond.Type()) {
+		return "", false
+	}
+	s := strings.ReplaceAll(w.Canon(cond), "^", "")
+	if reStableFlag.MatchString(s) {
+		return s, neg
+	}
+	return "", false
 }
